@@ -100,6 +100,58 @@ def c04(full):
             A += [argv('ZRANGEBYSCORE', k, lo, hi), argv('ZREVRANGEBYSCORE', k, hi, lo, 'WITHSCORES'), argv('ZCOUNT', k, lo, hi)]
     return A
 
+def c15(full):
+    """streams: colliding explicit ids, auto ids, bounds below/inside/between/above, COUNT, XDEL/XTRIM to empty"""
+    MAXID = '18446744073709551615-18446744073709551615'
+    k = 'k'
+    IDS = ['0-1', '1-0', '1-1', '2-0'] + (['5-3', MAXID] if full else [MAXID])
+    B = ['-', '+', '0-0', '1-0', '1-1', '3-0'] + (['0-1', '2-0', MAXID] if full else [])
+    A = []
+    for i in IDS:
+        A += [argv('XADD', k, i, 'a', '1'), argv('XDEL', k, i)]
+    A += [argv('XADD', k, '*', 'a', '1'), argv('XADD', k, '*', 'a', '1', 'b', '2'), argv('XADD', k, '1-0', 'a', '1', 'a', '2'),
+          argv('XADD', k, '0-0', 'a', '1'), argv('XADD', k, 'abc', 'a', '1'), argv('XADD', k, '1-0', 'a'), argv('XADD', k, '1-'),
+          argv('XLEN', k), argv('XLEN', k, k), argv('XDEL', k, '1-0', '2-0', '1-0'), argv('XDEL', k, 'x'), argv('XDEL', k),
+          argv('XTRIM', k, 'MAXLEN', '0'), argv('XTRIM', k, 'MAXLEN', '1'), argv('XTRIM', k, 'MAXLEN', '-1'), argv('XTRIM', k, 'MAXLEN', '5'),
+          argv('XTRIM', k, 'BOGUS', '1'), argv('DEL', k), argv('SET', k, 'v'), argv('TYPE', k), argv('EXISTS', k),
+          argv('XREAD', 'STREAMS', k, '0-0'), argv('XREAD', 'STREAMS', k, '1-0'), argv('XREAD', 'STREAMS', k, '$'),
+          argv('XREAD', 'COUNT', '1', 'STREAMS', k, '0-0'), argv('XREAD', 'COUNT', '0', 'STREAMS', k, '0-0'),
+          argv('XREAD', 'STREAMS', k, 'l', '0-0', '0-0'), argv('XREAD', 'STREAMS', k), argv('XREAD', 'STREAMS', k, 'x-1'),
+          argv('XADD', 'l', '1-0', 'a', '1'), argv('XRANGE', k, '-', '+', 'COUNT'), argv('XRANGE', k, '-', '+', 'COUNT', 'x')]
+    for lo in B:
+        for hi in B:
+            A += [argv('XRANGE', k, lo, hi), argv('XREVRANGE', k, hi, lo)]
+            if full or lo in ('-', '1-0'):
+                A += [argv('XRANGE', k, lo, hi, 'COUNT', '1'), argv('XREVRANGE', k, hi, lo, 'COUNT', '1'),
+                      argv('XRANGE', k, lo, hi, 'COUNT', '0')]
+    return A
+
+def c16(full):
+    """consumer groups: two consumers (three when full), one or two groups, reads with COUNT/NOACK, acks, claims, admin"""
+    k = 'k'
+    G = ['g', 'h'] if full else ['g']
+    C = ['c', 'd']
+    A = [argv('XADD', k, '1-0', 'a', '1'), argv('XADD', k, '2-0', 'a', '2'), argv('XADD', k, '3-0', 'a', '3'),
+         argv('XDEL', k, '1-0'), argv('XDEL', k, '2-0'), argv('XTRIM', k, 'MAXLEN', '0'), argv('DEL', k), argv('SET', k, 'v'),
+         argv('XLEN', k), argv('XGROUP'), argv('XGROUP', 'BOGUS', k, 'g')]
+    for g in G:
+        A += [argv('XGROUP', 'CREATE', k, g, '0-0'), argv('XGROUP', 'CREATE', k, g, '$'), argv('XGROUP', 'CREATE', k, g, '1-0'),
+              argv('XGROUP', 'CREATE', k, g, '$', 'MKSTREAM'), argv('XGROUP', 'CREATE', k, g, 'bad'), argv('XGROUP', 'DESTROY', k, g),
+              argv('XGROUP', 'SETID', k, g, '0-0'), argv('XGROUP', 'SETID', k, g, '$'), argv('XGROUP', 'SETID', k, g, '1-0'),
+              argv('XPENDING', k, g), argv('XPENDING', k, g, '-', '+', '10'), argv('XPENDING', k, g, '2-0', '+', '1'),
+              argv('XPENDING', k, g, '-', '+'), argv('XPENDING', k, g, '-', '1-0', '10'),
+              argv('XACK', k, g, '1-0'), argv('XACK', k, g, '2-0'), argv('XACK', k, g, '1-0', '2-0', '1-0'), argv('XACK', k, g, '9-9'),
+              argv('XACK', k, g), argv('XACK', k, g, 'x')]
+        for c in C:
+            A += [argv('XREADGROUP', 'GROUP', g, c, 'STREAMS', k, '>'), argv('XREADGROUP', 'GROUP', g, c, 'COUNT', '1', 'STREAMS', k, '>'),
+                  argv('XREADGROUP', 'GROUP', g, c, 'NOACK', 'STREAMS', k, '>'), argv('XREADGROUP', 'GROUP', g, c, 'STREAMS', k, '0-0'),
+                  argv('XREADGROUP', 'GROUP', g, c, 'COUNT', '1', 'STREAMS', k, '1-0'), argv('XREADGROUP', 'GROUP', g, c, 'STREAMS', k, '$'),
+                  argv('XCLAIM', k, g, c, '0', '1-0'), argv('XCLAIM', k, g, c, '0', '1-0', '2-0', '9-9'),
+                  argv('XCLAIM', k, g, c, '0', '2-0', 'JUSTID'), argv('XCLAIM', k, g, c, 'x', '1-0'),
+                  argv('XGROUP', 'DELCONSUMER', k, g, c), argv('XGROUP', 'CREATECONSUMER', k, g, c),
+                  argv('XPENDING', k, g, '-', '+', '10', c)]
+    return A
+
 def txn(full):
     A = [argv('MULTI'), argv('EXEC'), argv('DISCARD'), argv('WATCH', 'k'), argv('UNWATCH'),
          argv('SET', 'k', 'a'), argv('INCR', 'k'), argv('GET', 'k'), argv('DEL', 'k'), argv('NOSUCH', 'k'), argv('SELECT', '1')]
@@ -146,6 +198,10 @@ def main():
     out.append(cat('Cat_C03_quick', c03(False)))
     out.append(cat('Cat_C04', c04(True)))
     out.append(cat('Cat_C04_quick', c04(False)))
+    out.append(cat('Cat_C15', c15(True)))
+    out.append(cat('Cat_C15_quick', c15(False)))
+    out.append(cat('Cat_C16', c16(True)))
+    out.append(cat('Cat_C16_quick', c16(False)))
     out.append(cat('Cat_Txn', txn(True)))
     out.append(cat('Cat_Txn_quick', txn(False)))
     out.append(cat('Cat_C18', c18()))
